@@ -296,6 +296,8 @@ def register(I):
           "std::hint::black_box")
     def _ident(I, a, cc):
         if cc.norm.endswith("drop"):
+            if I.race is not None and I.race.active and a:
+                I.race.dropped(a[0])
             return UNIT
         return a[0]
 
@@ -373,6 +375,9 @@ def register(I):
     @intr("std::sync::RwLock::read", "std::sync::RwLock::write", "std::sync::Mutex::lock")
     def _lock(I, a, cc):
         lk = deref(a[0])
+        R = I.race
+        if R is not None and R.active:
+            return ok(R.acquire(I, lk, "r" if cc.norm.endswith("::read") else "w"))
         return ok(Ptr(lk.f, 0))
 
     @intr("std::cell::RefCell::borrow", "std::cell::RefCell::borrow_mut")
